@@ -5,12 +5,21 @@ dir_fd-relative events resolved through /proc/self/fd), canary files planted whe
 every result for canary tokens, listing of the worker's private TMPDIR after the generator is exhausted / closed early /
 abandoned / failed in the consumer.  Every event whose resolved path is outside the private TMPDIR is a violation
 (read-only opens of interpreter files - lazy imports, mimetypes tables - are the only exception).
+
+Besides file members the grammar is applied to *directory* entries (7z entries without data stream, with / without the
+directory attribute, empty files, the directory attribute on an entry that owns a stream; ZIP "name/" records; TAR DIRTYPE
+members): os.mkdir / os.makedirs are audit events like any open, and the tree around the private TMPDIR (canary area, the
+worker's own current directory) is listed before and after every case, so a directory made on the host is seen twice.
+Directory names are chosen so that a faulty tree creates them inside the worker's own scratch area (or names a directory
+that exists anyway).  TAR (and ZIP) link members are also pointed at *members of the archive* that must never produce a
+result (hidden, __MACOSX/, unsupported, nested archive, oversize), under an innocent supported name, before and after the target.
 """
 from __future__ import annotations
 
 import gc
 import io
 import os
+import posixpath
 import random
 import shutil
 
@@ -32,14 +41,17 @@ def work_init(init):
     for k in corpus.KINDS:
         obs.extractor(k)
     mimetypes.guess_type("x.txt")
-    global RUN_DIR, TMP, OUTSIDE
-    RUN_DIR = tempfile.mkdtemp(prefix="verif-c09-")
+    global RUN_DIR, TMP, OUTSIDE, CWD
+    RUN_DIR = os.path.realpath(tempfile.mkdtemp(prefix="verif-c09-"))
     TMP = os.path.join(RUN_DIR, "tmp")
     OUTSIDE = os.path.join(RUN_DIR, "outside")
+    CWD = os.path.join(RUN_DIR, "cwd")
     os.makedirs(TMP)
     os.makedirs(OUTSIDE)
+    os.makedirs(CWD)
     os.environ["TMPDIR"] = TMP
     tempfile.tempdir = TMP
+    os.chdir(CWD)       # a member name used relative to the current directory lands in the watched area, not in the framework's tree
     import atexit
     atexit.register(lambda: shutil.rmtree(RUN_DIR, ignore_errors=True))
     fsaudit.install()
@@ -77,13 +89,47 @@ def hostile_names(rng, canaries):
     return names
 
 
-def build_case(seed: int, layout: str):
+BENIGN_NAMES = ["readme.txt", "docs/a.md", "docs/b/c.csv", "data.json", "UPPER.TXT", "ünï/文書.txt", "notes v2.txt", "x/y/z/deep.md"]
+PROTECTED = [("hidden", ".secret.txt"), ("hidden", "docs/.env.txt"), ("fork", "__MACOSX/._report.txt"), ("fork", "__MACOSX/docs/res.md"),
+             ("unsupported", "payload.bin"), ("unsupported", "docs/tool.exe"), ("nested", "inner-data.zip"), ("nested", "docs/bundle.tar.gz")]
+
+
+def hostile_dir_names(rng):
+    """The member-name grammar for *directory* entries.  Seen from the extraction directory TMP/<tmpXXXX> every name resolves
+    inside the worker's scratch area RUN_DIR (outside TMP), inside TMP next to the extraction directory, or to a directory /
+    file that exists anyway - a tree that creates them cannot litter the host, and the listing of RUN_DIR shows every one."""
+    root_up = "../" * 14 + RUN_DIR.lstrip("/")
+    names = [
+        OUTSIDE + "/mk-abs/inner", OUTSIDE + "/sub/mk-abs2", RUN_DIR + "/mk-run", "/" + RUN_DIR.lstrip("/") + "//mk-dslash", CWD + "/mk-cwd",
+        "../../outside/mk-rel/inner", "../../mk-rel2", "docs/../../../outside/mk-mixed", "a/b/../../../../outside/sub/mk-deep", "./../../outside/./mk-dot",
+        root_up + "/outside/mk-root/x", "../mk-sibling", "docs/../../mk-sibling2/inner", "..\\..\\outside\\mk-bs", "../../outside/mk-" + "l" * 200,
+        "../../outside/mk-ünï/文書", OUTSIDE, OUTSIDE + "/sub", OUTSIDE + "/canary.txt", OUTSIDE + "/canary.txt/below", "/", "/tmp", "..", "../..", ".", "",
+        "plain-dir", "plain/nested/dir", ".hidden-dir", "__MACOSX/d", "docs", "dir.txt", "a/dir.md",
+    ]
+    rng.shuffle(names)
+    return names
+
+
+def _escapes(name: str) -> bool:
+    """Would creating ``name`` below the extraction directory TMP/<x> touch anything outside that directory?"""
+    base = os.path.join(TMP, "x")
+    tgt = os.path.normpath(os.path.join(base, name))
+    return not (tgt == base or tgt.startswith(base + os.sep))
+
+
+def build_case(seed: int, layout: str, focus: str = "names"):
     rng = random.Random(f"c09:{seed}")
     canaries = _canaries()
     fam = archives.family(layout)
-    names = hostile_names(rng, canaries)[: rng.randint(3, 12)]
+    if focus == "names":
+        names = hostile_names(rng, canaries)[: rng.randint(3, 12)]
+    else:       # directory entries / links are the hostile part: file members keep ordinary names, so the archive is processed to the end
+        names = rng.sample(BENIGN_NAMES, rng.randint(0, 5))     # 0: an archive of directory entries / links only (no packed stream at all in a 7z)
+    if archives.tar_format(layout) == "ustar":
+        names = [n for n in names if len(n.encode()) <= 100]      # the 1988 header cannot hold longer names (a packer refuses them)
     members = []
     expect_skip = []
+    info = {"hostile_dirs": 0, "escaping_dirs": 0, "links_to_protected": 0, "link_tokens": [], "oversize_linked": False}
     for i, nm in enumerate(names):
         tok = f"qa{seed % 1000:03d}{i:02d}z"
         data = f"{tok} member payload {i}\n".encode()
@@ -109,20 +155,73 @@ def build_case(seed: int, layout: str):
             {"name": "hard2.txt", "type": "hardlink", "link": "../outside/canary.txt"},
             {"name": "fifo.txt", "type": "fifo"},
             {"name": "dev.txt", "type": "chardev"},
+            {"name": "blk.txt", "type": "blockdev"},
             {"name": "dirlike.txt", "type": "dir"},
         ]
         rng.shuffle(extra)
-        members += extra[: rng.randint(1, 5)]
+        members += extra[: rng.randint(1, 6)]
     elif fam == "zip":
         if rng.random() < 0.5:
             members.append({"name": "ziplink.txt", "type": "symlink", "link": list(canaries)[0]})
+    # directory entries over the same grammar
+    if focus == "dirs" or rng.random() < 0.3:
+        for nm in hostile_dir_names(rng)[: rng.randint(1, 6) if focus == "dirs" else 1]:
+            if archives.tar_format(layout) == "ustar" and len(nm.encode()) > 100:
+                continue
+            m = {"name": nm, "type": "dir"}
+            if fam == "7z":
+                kind = rng.choice(["dir", "dir", "dir-without-attribute", "empty-file", "attribute-on-stream", "dir-trailing-slash", "unix-dir"])
+                if kind == "dir-without-attribute":
+                    m["attr"] = 0x20                      # no data stream, archive attribute only
+                elif kind == "empty-file":
+                    m = {"name": nm, "type": "file", "data": b""}          # kEmptyStream + kEmptyFile
+                elif kind == "attribute-on-stream":
+                    m = {"name": nm, "type": "file", "data": f"qd{seed % 1000:03d}z dir-flagged payload\n".encode(), "attr": 0x10, "inconsistent": True}
+                elif kind == "dir-trailing-slash":
+                    m["name"], m["strip_slash"] = nm + "/", False
+                elif kind == "unix-dir":
+                    m["attr"] = 0x8010 | 0o040755 << 16   # as p7zip writes directories
+            elif fam == "zip" and rng.random() < 0.3:
+                m["attr"] = rng.choice([0x10, 0, 0o040755 << 16])
+            members.append(m)
+            info["hostile_dirs"] += 1
+            info["escaping_dirs"] += 1 if _escapes(nm) else 0
     # oversize member (> 10 MiB): must be skipped without result
     oversize_tok = None
     if rng.random() < 0.15:
         oversize_tok = f"qo{seed % 100000:05d}z"
         members.append({"name": "big.txt", "data": oversize_tok.encode() + b"\n" + b"0" * (10 * 1024 * 1024 + 5), "type": "file"})
     rng.shuffle(members)
-    return members, canaries, expect_skip, oversize_tok
+    # link members pointing at members of the archive that must not produce a result, under an innocent supported name
+    if fam not in ("7z",) and (focus == "links" or rng.random() < 0.25):
+        picks = rng.sample(PROTECTED, rng.randint(1, 3)) + [("visible", "visible-twin.txt")]      # the last one is the control: a link to an ordinary member
+        if oversize_tok:
+            picks.append(("oversize", "big.txt"))
+        for j, (cls, tname) in enumerate(picks):
+            if cls != "oversize":
+                tok = f"ql{seed % 1000:03d}{j:02d}z"
+                body = f"{tok} {cls} member payload\n".encode()
+                if cls == "nested":
+                    body = archives.build("zip-stored", [{"name": "x.txt", "data": body}])
+                members.insert(rng.randint(0, len(members)), {"name": tname, "data": body, "type": "file"})
+                if cls != "visible":
+                    info["link_tokens"].append(tok)
+            else:
+                info["oversize_linked"] = True
+            at = next(i for i, m in enumerate(members) if m["name"] == tname and m.get("type", "file") == "file")
+            for ltype in rng.sample(["hardlink", "symlink"], rng.randint(1, 2)) if fam != "zip" else ["symlink"]:
+                lname = rng.choice([f"report{j}.txt", f"docs/summary{j}.md", f"copy{j}.csv", f"a/b/linked{j}.txt"])
+                if any(m["name"] == lname for m in members):
+                    lname = f"l{len(members)}-" + lname.rsplit("/", 1)[-1]
+                target = tname if ltype == "hardlink" else posixpath.relpath(tname, posixpath.dirname(lname) or ".")
+                # tarfile resolves a hard link among the members in front of it, a symbolic link anywhere: mostly behind the target, sometimes in front
+                pos = rng.randint(at + 1, len(members)) if rng.random() < 0.8 else rng.randint(0, at)
+                members.insert(pos, {"name": lname, "type": ltype, "link": target})
+                if pos <= at:
+                    at += 1
+                if cls != "visible":
+                    info["links_to_protected"] += 1
+    return members, canaries, expect_skip, oversize_tok, info
 
 
 def work(case):
@@ -133,7 +232,7 @@ def work(case):
     for leftover in os.listdir(TMP):     # a previous case's leak is that case's finding, not this one's
         shutil.rmtree(os.path.join(TMP, leftover), ignore_errors=True)
     layout = case["layout"]
-    members, canaries, expect_skip, oversize_tok = build_case(case["seed"], layout)
+    members, canaries, expect_skip, oversize_tok, info = build_case(case["seed"], layout, case.get("focus", "names"))
     try:
         data = archives.build(layout, members)
     except Exception as e:
@@ -143,6 +242,7 @@ def work(case):
         r = random.Random(f"c09m:{case['seed']}")
         data = mutate.byte_mutate(data, r.choice(["bitflip", "numbers", "truncate_tail", "zero", "byteset"]), r)
     canary_stat = {p: (os.stat(p).st_mtime_ns, os.stat(p).st_size, os.stat(p).st_ino) for p in canaries}
+    tree_before = _host_tree()
     behaviour = case["behaviour"]
     texts, names, n = [], [], 0
     exc = None
@@ -200,7 +300,19 @@ def work(case):
         outside.append({"ev": ev["ev"], "path": p[:200], "write": ev.get("write")})
     out = {"layout": layout, "behaviour": behaviour, "n_results": n, "exc": exc, "n_events": len(events), "outside": outside[:10],
            "n_members": len(members), "size": len(data)}
+    out["n_mkdir_events"] = sum(1 for ev in events if ev["ev"] == "os.mkdir")
     out["tmp_left"] = sorted(os.listdir(TMP))[:5]
+    # post-state of the area around the private TMPDIR (canary area, current directory, RUN_DIR itself): nothing may appear or vanish
+    tree_after = _host_tree()
+    out["host_tree_new"] = sorted(tree_after - tree_before)[:6]
+    out["host_tree_gone"] = sorted(tree_before - tree_after)[:6]
+    for rel in sorted(tree_after - tree_before, key=len, reverse=True):      # the next case starts from the same state
+        q = os.path.join(RUN_DIR, rel)
+        if os.path.isdir(q) and not os.path.islink(q):
+            shutil.rmtree(q, ignore_errors=True)
+        elif os.path.lexists(q):
+            os.remove(q)
+    out.update({k: info[k] for k in ("hostile_dirs", "escaping_dirs", "links_to_protected")})
     changed = []
     for p, st in canary_stat.items():
         try:
@@ -216,11 +328,24 @@ def work(case):
     # entries without a data stream shift the size table of a 7z header: which bytes land in which member is then undefined
     # (still the archive's own bytes), so member-level expectations are only judged for consistent archives
     # (a NUL inside a 7z name ends the name early and shifts all later names: same situation)
-    consistent = not any(m.get("phantom") for m in members) and not case.get("mutate") and not (archives.family(layout) == "7z" and any("\x00" in m["name"] for m in members))
+    consistent = not any(m.get("phantom") or m.get("inconsistent") for m in members) and not case.get("mutate") and not (archives.family(layout) == "7z" and any("\x00" in m["name"] for m in members))
     out["skipped_member_in_results"] = [t for t in expect_skip if t in blob] if consistent else []
     out["oversize_in_results"] = bool(oversize_tok and oversize_tok in blob) if consistent else False
+    out["oversize_linked"] = info["oversize_linked"]
+    out["linked_protected_member_in_results"] = [t for t in info["link_tokens"] if t in blob] if consistent else []
     out["result_names"] = names[:12]
     return out
+
+
+def _host_tree() -> set:
+    """Relative paths of everything below RUN_DIR except the private TMPDIR subtree."""
+    seen = set()
+    for root, dirs, files in os.walk(RUN_DIR):
+        if root == RUN_DIR:
+            dirs[:] = [d for d in dirs if d != "tmp"]
+        for nm in dirs + files:
+            seen.add(os.path.relpath(os.path.join(root, nm), RUN_DIR))
+    return seen
 
 
 _MARKS = None
@@ -248,15 +373,20 @@ def _host_marks():
 def gen_cases(run):
     rng = run.rng
     cid = 0
-    for layout in archives.ALL_LAYOUTS:
-        for r in range(run.n(40, 400)):
+    for layout in archives.EXTENDED_LAYOUTS:
+        fam = archives.family(layout)
+        # r % 5 == 4: byte-mutated archive; otherwise the hostile part is the file names / the directory entries / (TAR, ZIP) link members
+        cycle = ["names", "dirs", "names", "dirs"] if fam == "7z" else ["names", "links", "dirs", "links"]
+        for r in range(run.n(40, 400) if layout in archives.ALL_LAYOUTS else run.n(12, 120)):      # TAR header formats gnu / ustar: fewer repetitions
             cid += 1
-            yield {"id": cid, "layout": layout, "seed": run.seed * 100000 + cid, "behaviour": BEHAVIOURS[r % 4], "mutate": r % 5 == 4}
+            yield {"id": cid, "layout": layout, "seed": run.seed * 100000 + cid, "behaviour": BEHAVIOURS[r % 4], "mutate": r % 5 == 4,
+                   "focus": "names" if r % 5 == 4 else cycle[(r // 5 + r) % 4]}
 
 
 def main(run):
     run.rule = ("case = one archive over the hostile member-name grammar (absolute, ../ chains, mixed separators, drive letters, empty, very long, unicode, names of existing host files, tar links/devices/fifos, "
-                "7z entries with and without data streams, hidden / fork / nested / unsupported / oversize members) x consumer behaviour; distinct = (layout, behaviour, outcome, violation set); "
+                "7z entries with and without data streams, hidden / fork / nested / unsupported / oversize members; the same grammar on directory entries (7z empty-stream / directory-attribute / empty-file entries, "
+                "ZIP and TAR directory records); TAR/ZIP links to protected members of the archive; TAR header formats pax / gnu / ustar) x consumer behaviour; distinct = (layout, hostile part, behaviour, outcome, violation set); "
                 "non-trivial = the audit hook recorded >= 1 file-system event while the case was armed, or the archive was rejected before touching the file system")
     run.assumptions = ["read-only opens of interpreter files (*.py/*.pyc/*.so, mimetypes tables, zoneinfo) are the interpreter's, not the archive's",
                        "stat()/exists() carry no audit event: metadata probes are outside this monitor (strace cross-check is a thorough-tier extra)"]
@@ -279,22 +409,33 @@ def main(run):
             continue
         fam = archives.family(case["layout"])
         lc = fam if fam != "7z" else "7z"
+        focus = case.get("focus", "names")
+        for k in ("hostile_dirs", "escaping_dirs", "links_to_protected"):
+            if ob.get(k) and not case["mutate"]:
+                run.count(f"{'7z' if fam == '7z' else 'zip' if fam == 'zip' else 'tar'}_archives_with_{k}")
+        run.count("mkdir_events_observed", ob.get("n_mkdir_events", 0))
         per_layout[case["layout"]] = per_layout.get(case["layout"], 0) + 1
         ev_total += ob["n_events"]
         armed_with_events += 1 if ob["n_events"] else 0
         seen = set()
 
-        def v(sym, detail):
-            key = f"C09:{lc}:{'mutated' if case['mutate'] else 'hostile-names'}:{sym}"
+        def v(sym, detail, feat="hostile-names"):
+            key = f"C09:{lc}:{'mutated' if case['mutate'] else feat}:{sym}"
             if key not in seen:
                 seen.add(key)
                 run.violation(key, f"{case['layout']} / {case['behaviour']} (seed {case['seed']}): {detail}", rep)
 
+        dirfeat = "hostile-directory-entries" if focus == "dirs" else "hostile-names"
         for o in ob["outside"]:
             kind = "write" if o.get("write") else "read"
-            v(f"host-file-{kind}-outside-tempdir", f"{o['ev']} on {o['path']!r}")
+            if o["ev"] in ("os.mkdir", "os.rmdir"):
+                v("host-directory-made-or-removed-outside-tempdir", f"{o['ev']} on {o['path']!r}", dirfeat)
+            else:
+                v(f"host-file-{kind}-outside-tempdir", f"{o['ev']} on {o['path']!r}")
+        if ob["host_tree_new"] or ob["host_tree_gone"]:
+            v("host-tree-changed-outside-tempdir", f"appeared next to the private TMPDIR: {ob['host_tree_new']}, vanished: {ob['host_tree_gone']}", dirfeat)
         if ob["tmp_left"]:
-            v(f"tempdir-not-removed-after-{case['behaviour']}", f"private TMPDIR still holds {ob['tmp_left']}")
+            v(f"tempdir-not-removed-after-{case['behaviour']}", f"private TMPDIR still holds {ob['tmp_left']}", dirfeat if focus == "dirs" else "hostile-names")
         if ob["canaries_changed"]:
             v("canary-modified", f"{ob['canaries_changed']}")
         if ob["canary_in_results"] or ob["host_content_in_results"]:
@@ -302,16 +443,24 @@ def main(run):
         if ob["skipped_member_in_results"]:
             v("hidden-or-unsupported-member-produced-result", f"tokens {ob['skipped_member_in_results'][:3]} of hidden / fork / nested / unsupported members are in the results")
         if ob["oversize_in_results"]:
-            v("oversize-member-produced-result", "the > 10 MiB member produced a result")
+            v("oversize-member-produced-result", "the > 10 MiB member produced a result" + (" (a link member points at it)" if ob["oversize_linked"] else ""),
+              "link-to-protected-member" if ob["oversize_linked"] else "hostile-names")
+        if ob["linked_protected_member_in_results"]:
+            v("hidden-or-unsupported-member-produced-result", f"tokens {ob['linked_protected_member_in_results'][:3]} of hidden / fork / nested / unsupported members that a link member "
+              "with an innocent name points at are in the results", "link-to-protected-member")
         exc = ob.get("exc")
         oc = "ok" if exc is None else ("xerr" if exc["is_extraction_error"] else "escaped")
-        run.case(f"{case['layout']}:{case['behaviour']}:{case['mutate']}:{oc}:{','.join(sorted(seen))}", nontrivial=True,
+        run.case(f"{case['layout']}:{focus}:{case['behaviour']}:{case['mutate']}:{oc}:{','.join(sorted(seen))}", nontrivial=True,
                  sample={"layout": case["layout"], "behaviour": case["behaviour"], "members": ob["n_members"], "results": ob["n_results"], "fs_events": ob["n_events"], "result_names": ob["result_names"][:4], "violations": sorted(seen)} if case["id"] % 41 == 0 else None)
     run.count("fs_events_observed", ev_total)
     run.count("cases_with_fs_events", armed_with_events)
     run.extras["archives_per_layout"] = per_layout
     run.require("fs_events_observed", ev_total, run.n(200, 3000))
-    run.require("layouts_exercised", len(per_layout), len(archives.ALL_LAYOUTS))
+    run.require("layouts_exercised", len(per_layout), len(archives.EXTENDED_LAYOUTS))
+    # the new families must really have been processed (not lost as unbuildable / died), and the monitor must have seen directory creation at all
+    for k, lo in (("7z_archives_with_escaping_dirs", run.n(60, 600)), ("zip_archives_with_escaping_dirs", run.n(5, 50)), ("tar_archives_with_escaping_dirs", run.n(15, 150)),
+                  ("tar_archives_with_links_to_protected", run.n(40, 400)), ("mkdir_events_observed", run.n(100, 1000))):
+        run.require(k, run.counters.get(k, 0), lo)
 
 
 def replay(run, doc):
